@@ -351,6 +351,7 @@ _k('K.debt.finish_cycle_reset', 'k_debt_finish_cycle_reset', ['C09'], 'allocatio
 _k('K.debt.sleep_honoured', 'k_debt_sleep_honoured', ['C09'], 'after a debt-free finish: debt 0 while allocations <= wake-up amount, > 0 once they exceed it')
 _k('K.debt.wakeup_formula', 'k_debt_wakeup_formula', ['C09'], 'wake-up amount = max(min_sleep, sleep_factor x survivors)', tier='thorough')
 _k('K.debt.formula_pairing', 'k_debt_formula_pairing', ['C09', 'C10'], 'credit side of the debt formula: debt == max(0, allocated - (marked x mark_factor + traced x trace_factor + remembered x keep_factor + dropped x drop_factor + freed x free_factor)), each counter paired with its own factor', complete='bounded: counters < 2^8, factors fixed to five distinct powers of two, wake-up amount and carried debt 0 (relational float queries over symbolic factors do not terminate in CBMC)')
+_k('K.debt.wakeup_uses_survivors', 'k_debt_wakeup_uses_survivors', ['C09'], 'the wake-up amount is computed from the survivors of the finished cycle (remembered), independent of every other counter: with sleep_factor 1/2 and min_sleep 0 it is exactly survivors / 2', complete='bounded: sleep_factor = 0.5, min_sleep = 0, survivors < 2^32 (stand-in in the quick tier for the thorough row K.debt.wakeup_formula)')
 _k('K.debt.adjust', 'k_debt_adjust', ['C10'], 'adjust_debt(x) adds exactly x to the artificial-debt term of the formula and touches nothing else')
 _k('K.metrics.counter_frames', 'k_metrics_counter_frames', ['C10', 'C20'], 'each mark_gc_* helper updates exactly its own counters; total_gc_count reads total_gcs')
 
@@ -496,6 +497,7 @@ _k('K.conv.thin_fat_slice', 'k_conv_thin_fat_slice', ['C17', 'C19'], 'GcSlice as
 _k('K.conv.thin_fat_str', 'k_conv_thin_fat_str', ['C17', 'C19'], 'GcStr thin <-> fat', complete='bounded: "" and "abc"', tier='thorough')
 _k('K.builder.slice_abandon', 'k_slice_builder_abandon', ['C18', 'C11'], 'slice-with-header builder abandoned before the header / after the header / after k of n elements: destructs exactly header + initialised prefix, releases the block, arena never sees it', complete='bounded: n <= 3 elements (k symbolic)')
 _k('K.builder.write_slice_with', 'k_slice_builder_write_slice_with', ['C18', 'C11'], 'write_slice_with creates elements in order and completes with contents equal to what was written; one allocation registered', complete='bounded: n <= 3 elements')
+_k('K.builder.write_slice_with_zst', 'k_slice_builder_write_slice_with_zst', ['C18', 'C11'], 'write_slice_with for zero-sized elements: the constructor runs once per element, in order; exactly the created elements are destructed', complete='bounded: n <= 3 elements')
 _k('K.builder.copy_wrong_length', 'k_slice_builder_copy_wrong_length_panics', ['C18'], 'copy_slice with a source of the wrong length panics before copying or linking (should_panic row)', complete='bounded: lengths <= 3')
 _k('K.zst.only_fitting', 'k_zst_cache_only_fitting_zsts', ['C19'], 'ZstCache<1|8|16>: the shared pointer is returned only for zero-sized T with align_of::<T>() <= MAX_ALIGN; returned pointers are aligned for T; shared allocations are ptr_eq to the cached pointer')
 _k('K.zst.pointer_alignment', 'k_zst_cache_pointer_alignment', ['C19', 'C17'], 'the cached pointer is aligned to MAX_ALIGN')
@@ -519,6 +521,7 @@ _k('K.collect.enum_map', 'k_collect_enum_map', ['C16'], 'EnumMap<bool, _>: the v
 _k('K.collect.slotmap', 'k_collect_slotmap', ['C16'], 'SlotMap: every stored value, removed values not reported', complete='bounded: 2 entries', features='smallvec,enum-map,slotmap')
 _k('K.collect.hashbrown', 'k_collect_hashbrown_map', ['C16'], 'hashbrown::HashMap values, strong and weak (trivial hasher)', complete='bounded: 1 entry', features='hashbrown', tier='thorough')
 _k('K.derive.structs', 'k_derive_structs', ['C15'], 'derive output for named / tuple / unit structs, require_static at first / middle / last position, all-static: exact pointers in declaration order; NEEDS_TRACE', complete='bounded: corpus of 8 struct shapes (complete in the field values)')
+_k('K.derive.recursive', 'k_derive_recursive_types', ['C15'], 'derive output for recursive types (list node with Option<Gc<Self>>, expression enum with Gc<Self> children): self-typed fields are traced, NEEDS_TRACE is true', complete='bounded: corpus of 2 recursive shapes')
 _k('K.derive.enums_generics_nested', 'k_derive_enums_generics_nested', ['C15'], 'derive output for enums with mixed variants (only the active variant, require_static inside a variant), generics with and without bound, nested containers, explicit gc_lifetime', complete='bounded: corpus of 6 shapes (complete in the field values)')
 _k('K.step.backward_barriers_earn_no_credit', 'k_step_backward_barriers_earn_no_credit', ['C10'], 'C10 as stated: no backward barrier raises a credit counter or lowers a debit counter')
 _k('K.step.forward_barriers_earn_no_credit', 'k_step_forward_barriers_earn_no_credit', ['C10'], 'C10 as stated, forward barriers: FAILS for a White child while marking (known finding F3)')
@@ -533,6 +536,7 @@ PROP_ASSUMES['C14'].insert(0, 'A-rcptr')
 _k('K.weak.api', 'k_weak_api', ['C05', 'C07', 'C19'], 'GcWeak::upgrade / is_dropped / is_dead / resurrect and Gc::is_dead map exactly to the Context functions: results per (phase, colour, live), frame, revived object Gray and queued')
 _k('K.collect.btreeset_binaryheap', 'k_collect_btreeset_binaryheap', ['C16'], 'BTreeSet and BinaryHeap elements (an Ord element type that holds a pointer)', complete='bounded: <= 2 elements')
 _k('K.collect.btreemap_keys', 'k_collect_btreemap_keys', ['C16'], 'BTreeMap: key AND value reported', complete='bounded: 1 entry')
+_k('K.collect.slice_with_header_positions', 'k_collect_slice_with_header_positions', ['C16'], 'SliceWithHeader<Gc, u8> reports its header although the elements need no tracing; SliceWithHeader<u8, GcWeak> reports its elements although the header needs none', complete='bounded: 2 elements')
 _k('K.collect.reflock_borrowed', 'k_collect_reflock_mutably_borrowed', ['C16', 'C06', 'C01'], 'tracing a RefLock whose contents are mutably borrowed (leaked RefMut) never returns normally without having reported the pointer it holds (should_panic row)')
 _k('K.collect.std_hashmap', 'k_collect_std_hashmap', ['C16'], 'std::collections::HashMap (the impl is generic over the hasher: trivial hasher instead of SipHash): key AND value, strong and weak; NEEDS_TRACE', complete='bounded: 1 entry', tier='thorough')
 _k('K.collect.std_hashset', 'k_collect_std_hashset', ['C16'], 'std::collections::HashSet elements (trivial hasher); NEEDS_TRACE', complete='bounded: 1 entry', tier='thorough')
